@@ -93,6 +93,13 @@ Theorem C20_gen_group_keeps_maximum : group_conf_uses_max = true.
 Proof. reflexivity. Qed.
 Print Assumptions C20_gen_group_keeps_maximum.
 
+(* what the code does now: `eligible` takes its anonymous arm for an empty actor key
+   only (the model's [r_actor r = ""] case); an absent asserted_by is stored with the
+   non-empty endpoint key of JSON null and is therefore an ordinary, shared actor key *)
+Theorem C20_gen_anonymous_only_for_empty_key : unattributed_is_anonymous = false.
+Proof. reflexivity. Qed.
+Print Assumptions C20_gen_anonymous_only_for_empty_key.
+
 Theorem C20_gen_classify_order :
   classify_order = [Insufficient; Accepted; Rejected; Contested; Uncertain].
 Proof. reflexivity. Qed.
@@ -297,4 +304,55 @@ Example C20_project_nonvacuous :
              {| th_accept := (7#10)%Q; th_material := (3#10)%Q |} in
   b_status b = Rejected /\ b_og b = 1 /\ b_sg b = 0 /\
   l_excluded (b_ledger b) = [(2%Z, "retracted"%string); (3%Z, "hypothetical_not_requested"%string)].
+Proof. vm_compute. repeat split; reflexivity. Qed.
+
+(* ---------- order independence at the type the code uses (binary64, f64::max) ---------- *)
+From Verif Require Import Belief.FloatOrder.
+
+(* [fgood f] = f is neither NaN nor -0.0 (checked by the harness on every case).
+   The three premises are IEEE-754 facts about `<` on such values; they are named
+   in the trusted base.  For every side whose confidences are good, the number of
+   groups and the multiset of group maxima computed with f64::max do not depend on
+   the recording order. *)
+Theorem C20_aggregate_perm_float :
+  (forall a b, fgood a = true -> fgood b = true ->
+     PrimFloat.ltb a b = true -> PrimFloat.ltb b a = false) ->
+  (forall a b c, fgood a = true -> fgood b = true -> fgood c = true ->
+     PrimFloat.ltb b a = false -> PrimFloat.ltb c b = false -> PrimFloat.ltb c a = false) ->
+  (forall a b, fgood a = true -> fgood b = true ->
+     PrimFloat.ltb a b = false -> PrimFloat.ltb b a = false -> a = b) ->
+  forall side side' : list (cand float),
+    Forall (fun c => fgood (c_conf c) = true) side ->
+    Permutation side side' ->
+    List.length (groups_of fmax side) = List.length (groups_of fmax side') /\
+    Permutation (map snd (groups_of fmax side)) (map snd (groups_of fmax side')).
+Proof. exact aggregate_perm_float. Qed.
+Print Assumptions C20_aggregate_perm_float.
+
+(* Together with the canonical sorted fold: what `aggregate` returns (the binary64
+   score and the group count) is the same value in every recording order. *)
+Theorem C20_aggregate_float_order_independent :
+  (forall a b, fgood a = true -> fgood b = true ->
+     PrimFloat.ltb a b = true -> PrimFloat.ltb b a = false) ->
+  (forall a b c, fgood a = true -> fgood b = true -> fgood c = true ->
+     PrimFloat.ltb b a = false -> PrimFloat.ltb c b = false -> PrimFloat.ltb c a = false) ->
+  (forall a b, fgood a = true -> fgood b = true ->
+     PrimFloat.ltb a b = false -> PrimFloat.ltb b a = false -> a = b) ->
+  (forall a b, f_total_leb a b = true -> f_total_leb b a = true -> a = b) ->
+  (forall a b c, f_total_leb a b = true -> f_total_leb b c = true -> f_total_leb a c = true) ->
+  forall (cs cs' : list (cand float)) (opposing : bool),
+    Forall (fun c => fgood (c_conf c) = true) cs ->
+    Permutation cs cs' ->
+    aggregate fmax (fscore true) 0%float cs opposing = aggregate fmax (fscore true) 0%float cs' opposing.
+Proof. exact aggregate_float_order_independent. Qed.
+Print Assumptions C20_aggregate_float_order_independent.
+
+(* non-vacuity: the premise holds of ordinary confidences and fails of -0.0 and NaN;
+   f64::max then behaves as the maximum *)
+Example C20_fgood_nonvacuous :
+  forallb fgood [0; 0x1p-1; 1; 0x1.3333333333333p-2]%float = true /\
+  fgood (-0)%float = false /\ fgood PrimFloat.nan = false /\
+  map snd (groups_of fmax [mkCand 1%Z "a" ["e"] Support 0x1p-1%float false;
+                           mkCand 2%Z "b" ["e"] Support 0x1p-2%float false;
+                           mkCand 3%Z "c" [] Support 1%float false]) = [0x1p-1; 1]%float.
 Proof. vm_compute. repeat split; reflexivity. Qed.
